@@ -19,7 +19,8 @@ Two layers:
                ["copy", DST, SRC, append]        DST="${SRC}"  /  DST+=" ${SRC}"
                ["inherit", [eclass...]]          inherit a b
                ["phase", "src_compile"]          src_compile() { :; }
-               ["export", ["src_compile", ...]]  (eclass X only) X_src_compile() { :; }; EXPORT_FUNCTIONS src_compile
+               ["export", ["src_compile", ...], order]  (eclass X only) X_src_compile() { :; } and EXPORT_FUNCTIONS src_compile;
+                                                 order = after (default: definitions first) | before | between | never
      render(stmts, eclass=None) -> bash text;  render_ebuild(program) -> text with the EAPI line first
      programs(...)                             hypothesis strategy for whole programs (acyclic inherit graph by
                                                construction: eclass e<i> may only inherit e<j>, j>i)
@@ -138,9 +139,19 @@ def render(stmts, eclass=None):
         elif op == "export":
             if eclass is None:
                 raise ValueError("export statement outside an eclass")
-            for ph in s[1]:
-                out.append(f"{eclass}_{ph}() {{ :; }}")
-            out.append("EXPORT_FUNCTIONS " + " ".join(s[1]))
+            order = s[2] if len(s) > 2 else "after"
+            defs = [f"{eclass}_{ph}() {{ :; }}" for ph in s[1]]
+            call = "EXPORT_FUNCTIONS " + " ".join(s[1])
+            if order == "after":          # definitions, then the call
+                out += defs + [call]
+            elif order == "before":       # the usual Gentoo layout: call near the top, definitions below
+                out += [call] + defs
+            elif order == "between":
+                out += defs[:1] + [call] + defs[1:]
+            elif order == "never":        # exported but never defined (the stub exists all the same)
+                out.append(call)
+            else:
+                raise ValueError(f"unknown export order {order!r}")
         else:
             raise ValueError(f"unknown statement {s!r}")
     return "\n".join(out) + "\n"
@@ -235,7 +246,10 @@ def _stmt(tag, inheritable, in_eclass):
         inh = st.lists(st.sampled_from(inheritable), min_size=1, max_size=3).map(lambda l: ["inherit", l])
         alts += [inh, inh, inh]
     if in_eclass:
-        alts.append(st.lists(st.sampled_from(ALL_PHASE_FUNCS), min_size=1, max_size=2, unique=True).map(lambda l: ["export", l]))
+        exp = st.builds(lambda l, o: ["export", l, o],
+                        st.lists(st.sampled_from(ALL_PHASE_FUNCS), min_size=1, max_size=2, unique=True),
+                        st.sampled_from(["after", "before", "before", "between", "never"]))
+        alts += [exp, exp]
     return st.one_of(*alts)
 
 
